@@ -152,6 +152,36 @@ def host_post_process():
     return rows
 
 
+def rotation_probes():
+    """Probe the real `create_measure`, `create_rsp` and the deprecated `create(tp=M/R)`: for a grid of
+    (basis_local, basis_remote, rotations_local, rotations_remote) record the rotations the returned result
+    objects carry (= `EntRequestParams.rotations_*`) and slots 14..19 of the serialized request array."""
+    from harness import bell as H
+    import netqasm.sdk.build_epr as be
+    from netqasm.qlink_compat import EPRType
+    from netqasm.sdk.epr_socket import EPRSocket
+    names = [None, "X", "MZ"]
+    tuples = [(0, 0, 0), (0, 8, 0), (3, 5, 7)]
+    rows = []
+
+    def run(entry, bl, br, rl, rr):
+        out_l, out_r, ser = H.probe_rotations(entry, bl, br, rl, rr)
+        rows.append((entry, bl, br, rl, rr, out_l, out_r, ser))
+
+    for entry in ("create_measure", "create(tp=M)"):
+        for bl in names:
+            for br in names:
+                for rl in tuples:
+                    for rr in tuples:
+                        run(entry, bl, br, rl, rr)
+    for bl in names:
+        for rl in tuples:
+            run("create_rsp", bl, None, rl, (0, 0, 0))
+        if bl is not None:
+            run("create(tp=R)", bl, None, (0, 0, 0), (0, 0, 0))
+    return rows
+
+
 def generate():
     be, bld, qc = _imports()
     BS = qc.BellState
@@ -178,6 +208,17 @@ def generate():
     cw = creator_corrects("generic", "plain")
     cp = creator_corrects("generic", "seq") or creator_corrects("generic", "post") or creator_corrects("nv", "seq")
     cm = creator_corrects("nv", "plain")
+    def lo(v):
+        return "none" if v is None else f'some "{v}"'
+
+    def lr(t):
+        return f"({t[0]}, {t[1]}, {t[2]})"
+    probes = rotation_probes()
+    lines.append("/-- (entry point, basis_local, basis_remote, rotations_local, rotations_remote given by the application; "
+                 "rotations_local, rotations_remote of the request; request array slots 14..19) -/")
+    lines.append("def rotProbes : List (String × Option String × Option String × Rot × Rot × Rot × Rot × List Nat) := [\n  "
+                 + ",\n  ".join(f'("{e}", {lo(bl)}, {lo(br)}, {lr(rl)}, {lr(rr)}, {lr(ol)}, {lr(orr)}, '
+                                 f'[{", ".join(map(str, ser))}])' for e, bl, br, rl, rr, ol, orr, ser in probes) + "]")
     hp = host_post_process()
     lines.append("/-- (API form, role, expect_phi_plus, `post_process` of the returned EprMeasureResult objects) -/")
     lines.append("def hostPostProcess : List (String × String × Bool × Bool) := [" + ", ".join(
@@ -261,4 +302,4 @@ def generate():
     common.write_if_changed(OUT, "\n".join(lines) + "\n")
     return ["Gen.Corrections: singlePair", "Gen.Corrections: postTable (48 rows)",
             "Gen.Corrections: postOffTable (48 rows)", "Gen.Corrections: targets per path",
-            "Gen.Corrections: bases", "Gen.Corrections: creatorData", "Gen.Corrections: hostPostProcess"]
+            "Gen.Corrections: bases", "Gen.Corrections: creatorData", "Gen.Corrections: hostPostProcess", "Gen.Corrections: rotProbes"]
